@@ -150,8 +150,8 @@ func Families(tier string) []Family {
 		}
 		for _, m := range []mk{
 			{"multi-ss", "sslice", Ts("--l", "--l=v", "v", "w", "--b", "--", "-", "cmd", "-x", "", "-lb", "-bl", "-=x")}, // -=x is not an option token: it is a value; bundles: a letter still taking values looks ahead at the next bundle
-			{"multi-is", "islice", Ts("--l", "--l=1", "--l=1..3", "1", "2", "1.5", "1..3", "3..1", "x", "--b", "--", "99999999999999999999", "010")},
-			{"multi-fs", "fslice", Ts("--l", "--l=0.1", "--l=x", "1.5", "2", "1e-320", "x", "--b", "--")},
+			{"multi-is", "islice", Ts("--l", "--l=1", "--l=1..3", "1", "2", "1.5", "1..3", "3..1", "x", "--b", "--", "99999999999999999999", "010", "-1")},
+			{"multi-fs", "fslice", Ts("--l", "--l=0.1", "--l=x", "1.5", "2", "1e-320", "x", "--b", "--", "-2.5")},
 			{"multi-sm", "smap", Ts("--l", "--l=k=v", "k=v", "k=w=z", "K=v", "j=1", "x", "--b", "--", "-=x", "=v")}, // =v: an entry with an empty key
 		} {
 			f := Family{Name: m.name}
@@ -639,7 +639,7 @@ func Families(tier string) []Family {
 	{
 		f := Family{Name: "complete"}
 		toks := Ts("--f", "--fl", "--flag", "--p", "--profile", "--profile=", "--profile=p", "--level=", "--level=d", "-", "--",
-			"l", "lo", "log", "s", "show", "h", "help", "", "--lo", "x", "-fs", "-l", "-l=", "-l=d")
+			"l", "lo", "log", "s", "show", "h", "help", "", "--lo", "x", "-fs", "-l", "-l=", "-l=d", "key=va", "a:b") // plain words with the characters bash breaks words at
 		for mode := 0; mode < 3; mode++ {
 			for variant := 0; variant < 2; variant++ {
 				c := Cfg{Mode: mode}
